@@ -153,3 +153,27 @@ func ZZ_C15_k12_lanes_equal_specification() {
 	_, _ = t.Write(msg[8192*2+100:])
 	zzAssert(zzBytesEq(zzK12Out(&t), want), "K12 with 2/4 lanes, two writes = specification")
 }
+
+// Reset midway: a state that has absorbed an earlier message (short, or past the first chunk with
+// a partially filled leaf; squeezed or not) and is then Reset behaves like a fresh state on the
+// next message, for next messages on both sides of the chunk boundary (lanes = 1).
+//
+//zz: prop=C15 tier=quick backend=bv use=keccakuf timeout=300 budget=900
+func ZZ_C15_k12_reset_midway_gives_a_fresh_state() {
+	first := zzPick("firstlen", 1, 8292)
+	n := zzPick("msglen", 1, 8192, 8293)
+	old := make([]byte, first)
+	zzFill("old", old)
+	msg := make([]byte, n)
+	zzFill("msg", msg)
+	s := newDraft10([]byte{}, 1)
+	_, _ = s.Write(old)
+	if zzPick("read_before_reset", 0, 1) == 1 {
+		_ = zzK12Out(&s)
+	}
+	s.Reset()
+	_, _ = s.Write(msg)
+	fresh := newDraft10([]byte{}, 1)
+	_, _ = fresh.Write(msg)
+	zzAssert(zzBytesEq(zzK12Out(&s), zzK12Out(&fresh)), "after Reset the state hashes like a fresh one")
+}
